@@ -30,7 +30,10 @@ def retained(g, pre, roots, opaque_out=None):
         if m:
             for r in m["refs"]:
                 if m["kind"] == "index" and r not in (m.get("opaque") or []):
-                    work.append(r)          # children are manifests (unless listed under a media type that is not a manifest type)
+                    # children are manifests (unless listed under a media type that is not a manifest type); one listed under the
+                    # media type of the other kind of manifest ("mistyped") is a manifest all the same: what it references is what
+                    # its own bytes reference
+                    work.append(r)
                 else:
                     R.add(r)                # config and layers are plain blobs, whatever else their bytes are
                     if m["kind"] == "index" and opaque_out is not None:
@@ -80,6 +83,12 @@ def oracle(ctx, case, io):
             in-memory child list keeps for it can carry that media type, and it then no longer resolves as a manifest once
             index.json is re-read (finding F50)"""
             return any(d in (m.get("opaque") or []) for m in gg["man"].values())
+        def under_index_listed_as_image(d):
+            """d is listed by an index which another index lists under an image media type: when index.json is re-read the
+            child list is rebuilt by descending through the children that are listed as indexes only, so d (blob retained) no
+            longer resolves as a manifest (finding F58)"""
+            parents = [x for x, m in gg["man"].items() if m["kind"] == "index" and d in m["refs"]]
+            return any(p_ in (m.get("mistyped") or []) for p_ in parents for m in gg["man"].values())
         nroots_tagged = len(roots)
         if (pol.get("grace_ms") or 3600000) >= 0:
             # a pushed manifest younger than the grace period is retained, with everything it references
@@ -89,7 +98,8 @@ def oracle(ctx, case, io):
         R, RM = retained(gg, pre, roots)
         for d in sorted(R):
             if lost(d) or (d in RM and mlost(d)):
-                sig = "C05:opaque-child-not-a-manifest" if (not lost(d) and opaque_listed(d)) else "C05:retained-removed"
+                sig = "C05:opaque-child-not-a-manifest" if (not lost(d) and opaque_listed(d)) else \
+                    ("C05:child-of-index-listed-as-image" if (not lost(d) and under_index_listed_as_image(d)) else "C05:retained-removed")
                 ctx.violation("collection removed %s, referenced (transitively) by a retained manifest (tagged, young, or untagged with untagged collection off) or a referrer of one" % d[:19],
                               hist(digest=d), sig)
         for s_, lst in pre["refs"].items():
@@ -102,7 +112,8 @@ def oracle(ctx, case, io):
             for d in sorted(pre["man"]):
                 # artifacts (manifests with a subject) follow the referrers policy: covered by the clause above
                 if mlost(d) and not gg["man"].get(d, {}).get("subject"):
-                    sig = "C05:orphaned-child-collected" if orphan(d) else ("C05:opaque-child-not-a-manifest" if opaque_listed(d) else "C05:untagged-removed")
+                    sig = "C05:orphaned-child-collected" if orphan(d) else ("C05:opaque-child-not-a-manifest" if opaque_listed(d) else
+                                                                            ("C05:child-of-index-listed-as-image" if under_index_listed_as_image(d) else "C05:untagged-removed"))
                     ctx.violation("untagged collection is off but manifest %s was removed" % d[:19], hist(digest=d), sig)
         # younger than the grace period
         if (pol.get("grace_ms") or 3600000) >= 0:
@@ -111,7 +122,8 @@ def oracle(ctx, case, io):
                     ctx.violation("collection removed blob %s which is younger than the grace period" % d[:19], hist(digest=d), "C05:young-removed")
                 elif mlost(d) and not gg["man"].get(d, {}).get("subject"):
                     # (an artifact follows the referrers policy of its subject; its bytes stay, checked above)
-                    sig = "C05:orphaned-child-collected" if orphan(d) else ("C05:opaque-child-not-a-manifest" if opaque_listed(d) else "C05:young-manifest-removed")
+                    sig = "C05:orphaned-child-collected" if orphan(d) else ("C05:opaque-child-not-a-manifest" if opaque_listed(d) else
+                                                                            ("C05:child-of-index-listed-as-image" if under_index_listed_as_image(d) else "C05:young-manifest-removed"))
                     ctx.violation("collection removed manifest %s which is younger than the grace period" % d[:19], hist(digest=d), sig)
 
 
@@ -126,11 +138,27 @@ def make_cases(ctx, first):
     cases = []
     for i in range(n):
         pol = pols[i % len(pols)]
-        conf = mkconf(store=("mem", "dir")[(i // len(pols)) % 2], emptyrepo=False, **pol)   # removal of emptied repository directories is C06's
-        w = gcgen.GCWorld(rng, conf, ["a"] if i % 3 else ["a", "a/b"])
+        # (removal of emptied repository directories is C06's; here it is switched on - the default - in a quarter of the cases,
+        #  because a repository that holds nothing but freshly uploaded blobs looks empty to it)
+        emptyrepo = i % 4 == 3
+        conf = mkconf(store=("mem", "dir")[(i // len(pols)) % 2], emptyrepo=emptyrepo, **pol)
+        w = gcgen.GCWorld(rng, conf, (["a"] if i % 3 else ["a", "a/b"]) + (["fresh"] if emptyrepo else []))
         gcn = 0
         for repo in w.repos:
-            w.build(repo)
+            if repo != "fresh":
+                w.build(repo)
+        if emptyrepo:
+            # a collection between the blob uploads and the first manifest push of a new repository
+            cfg, lay = b'{"architecture":"riscv64"}', b"first-layer-%d" % i
+            w.blob("fresh", cfg); w.blob("fresh", lay)
+            if rng.random() < 0.3:
+                w.age("fresh", "all")
+            gcn += 1
+            w.collect("fresh", gcn)
+            body = image_manifest(desc(MT_CFG, cfg), [desc(MT_LAYER, lay)], annotations={"first": str(i)})
+            w.push("fresh", body, MT_OCI_M, [dg("sha256", cfg), dg("sha256", lay)], tag="v1")
+            w.add(manifest_get("fresh", "v1"))
+            w.g["fresh"].tags["v1"] = dg("sha256", body)
         for rnd in range(rng.randrange(2, 5)):
             repo = w.repo()
             for _ in range(rng.randrange(0, 3)):
